@@ -75,8 +75,8 @@ ASSUMPTIONS = [
     "a rebuilt recipe whose tree differs from the first build only by the order of operands (UFL sorts operands by "
     "counts) is not an 'equal form'; such pairs are counted rebuilt_operand_order_differs and left to C12",
 ]
-BUDGET = {"quick": 75, "thorough": 420}
-NCASES = {"quick": 1800, "thorough": 30000}
+BUDGET = {"quick": 65, "thorough": 420}
+NCASES = {"quick": 1500, "thorough": 30000}
 WORKERS = {"quick": 16, "thorough": 16}
 EVAL_COUNTER = "pairs"
 
@@ -97,9 +97,9 @@ ALL_RANDOM_KINDS = (
 
 FLOORS = {
     "quick": {"pairs": 30000, "pairs_different_canon": 27000, "rebuilt_equal_checked": 700, "pairs_equal_canon": 1400,
-              "battery_pairs": 300, "bucket_merges": 1, "bucket_forms": 28000},
-    "thorough": {"pairs": 500000, "pairs_different_canon": 450000, "rebuilt_equal_checked": 12000, "pairs_equal_canon": 24000,
-                 "battery_pairs": 300, "bucket_merges": 1, "bucket_forms": 450000},
+              "battery_pairs": 320, "bucket_merges": 1, "bucket_forms": 28000},
+    "thorough": {"pairs": 250000, "pairs_different_canon": 230000, "rebuilt_equal_checked": 6000, "pairs_equal_canon": 12000,
+                 "battery_pairs": 320, "bucket_merges": 1, "bucket_forms": 230000},
 }
 COVER_FLOORS = {"quick": {"kinds_different": ALL_RANDOM_KINDS[:-1]}, "thorough": {"kinds_different": ALL_RANDOM_KINDS[:-1]}}
 
@@ -107,6 +107,7 @@ COVER_FLOORS = {"quick": {"kinds_different": ALL_RANDOM_KINDS[:-1]}, "thorough":
 
 STORE = {}  # signature -> {loose digest: [case tag, kind, explained by a reported pair]}
 INFO = {}  # id(form) -> (form, FormInfo)
+SAMPLED = {"metadata-set", "bfo-attached", "literal-value"}
 REPORTED = {}  # violation key -> number of reports of this worker
 MAX_REPORTS_PER_KEY = 3  # the runner keeps 200 violations per worker: never let one mechanism crowd out another
 BATTERY_STRIDE = 16  # battery group g is case g*16: with 16 workers all of them run first, in worker 0
@@ -185,7 +186,8 @@ def check_pair(ctx, kind, sub, A, B, tag, expect_different=False):
             f"two forms that differ in one point ({name}) have the same signature",
             {"kind": name, "signature": a.sig[:16], "formA": _short(A), "formB": _short(B)},
         )
-    elif kind not in ("metadata-set", "bfo-attached"):
+    elif kind not in SAMPLED:
+        SAMPLED.add(kind)
         ctx.sample({"kind": name, "formA": _short(A, 300), "formB": _short(B, 300), "canons": "different", "signatures": "different"}, limit=4)
     return "different"
 
@@ -315,7 +317,7 @@ def random_case(ctx, i, rng):
                 continue
             if name.startswith("element-"):
                 sub = None
-            if name in ("literal-value", "literal-ulp", "fixed-index", "restriction-side", "terminal-type", "integral-type", "integrand-swap", "terminal-domain"):
+            if name in ("literal-value", "literal-ulp", "fixed-index", "restriction-side", "terminal-type", "integral-type", "integrand-swap", "terminal-domain", "function-space-label"):
                 sub = None  # one mechanism per kind
             check_pair(ctx, name, sub, F, M, tag)
 
@@ -705,6 +707,16 @@ def _grp_terminals():
     ]
 
 
+def _grp_constant():
+    def mk(shape, comp):
+        return lambda: (lambda b: b.f * ufl.Constant(b.mesh, shape)[comp] * b.v * b.dx)(B())
+
+    return [
+        ("constant-vector", mk((2,), 0), [("constant-shape", mk((3,), 0)), ("constant-shape", mk((4,), 0)), ("fixed-index", mk((2,), 1))]),
+        ("constant-tensor", mk((2, 2), (0, 0)), [("constant-shape", mk((2, 3), (0, 0))), ("constant-shape", mk((3, 2), (0, 0))), ("fixed-index", mk((2, 2), (0, 1)))]),
+    ]
+
+
 def _grp_bfo():
     def eo(derivs=(1, 0), space="P1", slot="w1", swap=False, n=2):
         def thunk():
@@ -765,7 +777,7 @@ def _grp_zero_free_indices():
 def battery():
     groups = [
         _grp_literal(), _grp_index(), _grp_operator(), _grp_restriction(), _grp_element(), _grp_domain(), _grp_integral_type(),
-        _grp_subdomain(), _grp_metadata_scalar(), *_grp_metadata_long(), _grp_metadata_precision(), _grp_terminals(), *_grp_bfo(),
+        _grp_subdomain(), _grp_metadata_scalar(), *_grp_metadata_long(), _grp_metadata_precision(), _grp_terminals(), *_grp_constant(), *_grp_bfo(),
         _grp_zero_free_indices(),
     ]
     return groups
